@@ -629,6 +629,11 @@ theorem nq_addLiteralAtts (hd : Handler) (as : List Att) : ∀ (s : St), NodupQ 
   | nil => intro s h; exact h
   | cons a as ih => intro s h; unfold addLiteralAtts; exact ih _ (nq_addLiteralAtt a _ h)
 
+theorem nq_cloneList (chain : List (List Att)) (ts : List Src) : ∀ (s : St), NodupQ s → NodupQ (cloneList chain s ts) := by
+  induction ts with
+  | nil => intro s h; unfold cloneList; exact h
+  | cons t ts ih => intro s h; unfold cloneList; exact ih _ (nq_cloneTree chain s t h)
+
 theorem nq_execSetAttrs (env : Env) (as : List SetAttr) : ∀ (r : Run), NodupQ r.st → NodupQ (execSetAttrs env r as).st := by
   induction as with
   | nil => intro r h; exact h
@@ -651,7 +656,7 @@ theorem exec_nodup_both :
   refine exec.mutual_induct
     (motive_1 := fun env r i => NodupQ r.st → NodupQ (exec env r i).st)
     (motive_2 := fun env r b is => NodupQ r.st → NodupQ (execList env r b is).st)
-    ?_ ?_ ?_ ?_ ?_ ?_ ?_ ?_ ?_ ?_ ?_ ?_ ?_ ?_ ?_ ?_ ?_ ?_ ?_ ?_
+    ?_ ?_ ?_ ?_ ?_ ?_ ?_ ?_ ?_ ?_ ?_ ?_ ?_ ?_ ?_ ?_ ?_ ?_ ?_ ?_ ?_ ?_ ?_
   all_goals (try dsimp only)
   · intro env r h; unfold exec; exact pending_attrs_nodup_qname [.characters] _ h
   · intro env r name ns value h; unfold exec
@@ -668,6 +673,16 @@ theorem exec_nodup_both :
   · intro env r ks h
     unfold exec
     exact nq_execSets env ks r h
+  · intro env r k body ih h
+    unfold exec
+    exact h
+  · intro env r k f hf h
+    unfold exec
+    simp only [hf]
+    exact nq_cloneList _ _ _ h
+  · intro env r k hf h
+    unfold exec
+    simp only [hf]; exact h
   · intro env r k body stk th hk ih h
     unfold exec
     simp only [hk]
@@ -1022,5 +1037,64 @@ example :
         = List.replicate 4 [some "m", some "z", some "k", some "e"] ∧
       ((postAliases mods false 5 0 own).getD 1 []).lookup "b" = some "c" := by
   decide
+
+
+/-! ## result tree fragments -/
+
+theorem fragNsOf_isolated (chain : List (List Att)) (p : String) : (fragNsOf (fun _ => none) chain p).2 = false := by
+  unfold fragNsOf
+  split
+  · rfl
+  · split <;> rfl
+
+theorem fragBuild_isolated_used (evs : List Ev) :
+    ∀ (open_ : List (QN × List Att × List Src)) (top : List Src) (used : Bool),
+      (fragBuild (fun _ => none) evs open_ top used).2 = used := by
+  induction evs with
+  | nil => intro o t u; rfl
+  | cons e evs ih =>
+    intro o t u
+    cases e with
+    | start n atts => unfold fragBuild; exact ih _ _ _
+    | text => unfold fragBuild; exact ih _ _ _
+    | stop n =>
+      cases o with
+      | nil => unfold fragBuild; exact ih _ _ _
+      | cons hd rest =>
+        obtain ⟨hn, ha, hk⟩ := hd
+        unfold fragBuild
+        cases rest with
+        | nil => simp only [ih]; simp [fragNsOf_isolated]
+        | cons r rs =>
+          obtain ⟨pn, pa, pk⟩ := r
+          simp only [ih]; simp [fragNsOf_isolated]
+
+/-- **a fragment built in its own namespace scope is self-contained** (`C14-result-tree-fragment-own-namespace-scope.diff`):
+when the enclosing result context contributes no bindings, every element and attribute name of the fragment is resolved by
+declarations carried inside the fragment itself, so copying it elsewhere cannot change an expanded name through a prefix the
+destination binds differently. -/
+theorem fragment_self_contained_fixed (evs : List Ev) (open_ : List (QN × List Att × List Src)) (top : List Src) :
+    (fragBuild (fun _ => none) evs open_ top false).2 = false :=
+  fragBuild_isolated_used evs open_ top false
+
+
+def rtfWitness : List Instr :=
+  [.lre ⟨"", "out"⟩ [⟨"p", "urn:A"⟩] [] [] []
+    [.rtfVar 1 [.lre ⟨"p", "x"⟩ [] [] [] [] []],
+     .element ⟨"p", "inner"⟩ (some "urn:B") [.copyVar 1]]]
+
+/-- the code first analysed builds the fragment on the live result namespaces stack: `<out xmlns:p="urn:A">`, variable
+`<p:x/>`, copied under `<p:inner xmlns:p="urn:B">` — the copy carries no `xmlns:p`, so `p:x` is in `urn:B` (replayed on the
+real library: C14-fragment-uses-enclosing-result-namespaces) -/
+theorem fragment_depends_on_context_counterexample :
+    (runCase {} [⟨0, [⟨"xsl", xsltURI⟩], [], []⟩] [] (Src.elem ⟨"", "doc"⟩ "" [] []) rtfWitness).st.out.reverse =
+      [Ev.start ⟨"", "out"⟩ [⟨⟨"xmlns", "p"⟩, "urn:A"⟩], Ev.start ⟨"p", "inner"⟩ [⟨⟨"xmlns", "p"⟩, "urn:B"⟩],
+       Ev.start ⟨"p", "x"⟩ [], Ev.stop ⟨"p", "x"⟩, Ev.stop ⟨"p", "inner"⟩, Ev.stop ⟨"", "out"⟩] := by decide +kernel
+
+example :
+    (runCase { rtfIsolatedNs := true } [⟨0, [⟨"xsl", xsltURI⟩], [], []⟩] [] (Src.elem ⟨"", "doc"⟩ "" [] []) rtfWitness).st.out.reverse =
+      [Ev.start ⟨"", "out"⟩ [⟨⟨"xmlns", "p"⟩, "urn:A"⟩], Ev.start ⟨"p", "inner"⟩ [⟨⟨"xmlns", "p"⟩, "urn:B"⟩],
+       Ev.start ⟨"p", "x"⟩ [⟨⟨"xmlns", "p"⟩, "urn:A"⟩], Ev.stop ⟨"p", "x"⟩, Ev.stop ⟨"p", "inner"⟩, Ev.stop ⟨"", "out"⟩] := by
+  decide +kernel
 
 end XalanModel.Props.C14
